@@ -60,7 +60,7 @@ def check(ctx: Ctx) -> str:
         spec.append((tname, names, row.lineno))  # type: ignore[arg-type]
     ctx.floor("_mutable_spec rows", len(spec), 3)
     fi = repo.func("sandbox:modifies_known_mutable")
-    loops = [n for n in ast.walk(fi.node) if isinstance(n, ast.For)]
+    loops = [n for n in ast.walk(fi.nnode) if isinstance(n, ast.For)]  # normal form: `if not isinstance: continue` + rest is `if isinstance: rest`
     ctx.need(len(loops) == 1 and "_mutable_spec" in ast.unparse(loops[0].iter), "modifies_known_mutable no longer loops over _mutable_spec")
     loop = loops[0]
     # recognise the shape: first-match (`if isinstance: return attr in unsafe`) or any-match
